@@ -121,6 +121,7 @@ structure Resp where
   cfg : ReqCfg
   state : RState
   aux : Aux := {}
+  inc : Nat := 0                -- which response with this id it is (identity of its message subscriber)
 deriving DecidableEq, Repr
 
 -- ------------------------------------------------------------------ transactions and builders
@@ -140,6 +141,7 @@ structure Entry where
   exts : Nat := 0
   bdata : Nat := 0
   bytes : Nat := 0              -- accounted bytes (blocks + extension data)
+  inc : Nat := 0                -- the response (incarnation of the id) whose subscriber watches this data
 deriving DecidableEq, Repr
 
 structure Builder where
@@ -181,9 +183,9 @@ def opSize (extLen : Nat) : TxOp → Nat
 def txSize (extLen : Nat) (ops : List TxOp) : Nat := (ops.map (opSize extLen)).sum
 
 /-- the build function of responseStream.execute -/
-def buildInto (extLen : Nat) (b : Builder) (id : Id) (ops : List TxOp) : Builder :=
+def buildInto (extLen : Nat) (b : Builder) (id : Id) (inc : Nat) (ops : List TxOp) : Builder :=
   let e := ops.foldl (applyOp extLen) (getEntry b.entries id)
-  { b with entries := putEntry b.entries { e with sub := true } }
+  { b with entries := putEntry b.entries { e with sub := true, inc := inc } }
 
 -- ------------------------------------------------------------------ processes
 inductive AfterTx
@@ -209,6 +211,7 @@ structure Worker where
   id : Id
   phase : WPhase
   parkF : Bool := false         -- park once before FinishTask
+  inc : Nat := 0                -- the response this task executes (its stream / subscriber)
 deriving DecidableEq, Repr
 
 inductive ReqMsg
@@ -230,8 +233,8 @@ inductive Msg
   | startTask (w : Nat)
   | getUpdates (w : Nat)
   | finishTask (w : Nat) (err : Option WErr)
-  | closeNetErr (id : Id) (pub : Peer)
-  | terminate (id : Id) (pub : Peer)
+  | closeNetErr (id : Id) (inc : Nat) (pub : Peer)   -- the subscriber of response `inc` of this id
+  | terminate (id : Id) (inc : Nat) (pub : Peer)
 deriving DecidableEq, Repr
 
 inductive ApiRes | ok | notFound | err
@@ -240,8 +243,8 @@ deriving DecidableEq, Repr
 /-- publisher micro-steps (subscriber.OnNext unfolded) -/
 inductive PStep
   | emitBs (id : Id) (n : Nat)
-  | callClose (id : Id)
-  | callTerminate (id : Id)
+  | callClose (id : Id) (inc : Nat)
+  | callTerminate (id : Id) (inc : Nat)
   | emitDone (id : Id) (code : Nat)
   | emitNerr (id : Id)
 deriving DecidableEq, Repr
@@ -318,6 +321,7 @@ structure State where
   seenIds : List Id := []             -- ghost: ids of all `new` requests received so far
   handled : Nat := 0                  -- ghost: number of mailbox messages handled so far
   underflow : Bool := false           -- ghost: some `release` gave back more than the peer had allocated
+  nextInc : Nat := 0                  -- number of responses registered so far (identity of the next one)
 deriving Repr, DecidableEq
 
 -- ------------------------------------------------------------------ small helpers
@@ -331,9 +335,10 @@ def modAux (s : State) (id : Id) (f : Aux → Aux) : State :=
 def setState (s : State) (id : Id) (st : RState) : State :=
   { s with table := s.table.map fun x => if x.id == id then { x with state := st } else x }
 
-/-- `rm.inProgressResponses[id] = response` -/
+/-- `rm.inProgressResponses[id] = response`; every registered response gets its own identity (its
+    message subscriber, /repo fe9afe8) -/
 def insertResp (s : State) (r : Resp) : State :=
-  { s with table := s.table.filter (·.id != r.id) ++ [r] }
+  { s with table := s.table.filter (·.id != r.id) ++ [{ r with inc := s.nextInc }], nextInc := s.nextInc + 1 }
 
 def delResp (s : State) (id : Id) : State := { s with table := s.table.filter (·.id != id) }
 
@@ -441,25 +446,34 @@ def tryAlloc (s : State) (party : Party) (p : Peer) (n : Nat) : State × Bool :=
   else ({ s with waiting := s.waiting ++ [{ party, peer := p, size := n }] }, false)
 
 -- ------------------------------------------------------------------ response assembler / message queue
+/-- whose subscriber watches the data a party queues: a task worker builds for the response it was
+    started for, the manager for the response in the table (or the one it is about to register) -/
+def incOf (s : State) (party : Party) (id : Id) : Nat :=
+  match party with
+  | .worker w => ((s.workers[w]?).map (·.inc)).getD 0
+  | .mgr => match s.table.find? (·.id == id) with
+    | some r => r.inc
+    | none => s.nextInc
+
 /-- the part of AllocateAndBuildMessage after the reservation was granted: build unless the stream
     was closed meanwhile (then the unused reservation is returned) -/
-def buildNow (s : State) (p : Peer) (id : Id) (ops : List TxOp) : State :=
+def buildNow (s : State) (party : Party) (p : Peer) (id : Id) (ops : List TxOp) : State :=
   let size := txSize s.extLen ops
   if isClosed s id then (if size > 0 then release s p size else s)
   else
     let q := getMQ s p
     let b := q.next.getD {}
-    setMQ s { q with next := some (buildInto s.extLen b id ops) }
+    setMQ s { q with next := some (buildInto s.extLen b id (incOf s party id) ops) }
 
 /-- responseStream.Transaction's `execute`; `true` = done, `false` = the caller is now waiting -/
 def execTx (s : State) (party : Party) (p : Peer) (id : Id) (ops : List TxOp) : State × Bool :=
   if isClosed s id then (s, true)
   else
     let size := txSize s.extLen ops
-    if size == 0 then (buildNow s p id ops, true)
+    if size == 0 then (buildNow s party p id ops, true)
     else
       let (s1, ok) := tryAlloc s party p size
-      if ok then (buildNow s1 p id ops, true) else (s1, false)
+      if ok then (buildNow s1 party p id ops, true) else (s1, false)
 
 -- ------------------------------------------------------------------ manager handlers
 /-- terminateRequest -/
@@ -591,7 +605,7 @@ def startTask (s : State) (w : Nat) : State :=
       else
         let s1 := if r.aux.started then s else emit s (.proc r.id)
         setWorker (setState (modAux s1 r.id fun a => { a with started := true, task := some w }) r.id .running) w
-          fun x => { x with phase := .started, parkF := r.cfg.parkFinish }
+          fun x => { x with phase := .started, parkF := r.cfg.parkFinish, inc := r.inc }
 
 /-- finishTask -/
 def finishTask (s : State) (w : Nat) (err : Option WErr) : State :=
@@ -627,6 +641,18 @@ def clearPubWait (s : State) (p : Peer) : State :=
   let q := getMQ s p
   setMQ s { q with pubWait := false }
 
+/-- CloseWithNetworkError reported "no such response": the publisher skips the listener call that
+    would have followed -/
+def dropNerr (s : State) (p : Peer) (id : Id) : State :=
+  let q := getMQ s p
+  setMQ s { q with pubQ := q.pubQ.erase (.emitNerr id) }
+
+/-- the response in the table under `id` is the one with identity `inc` -/
+def isInc (s : State) (id : Id) (inc : Nat) : Bool :=
+  match lookup s id with
+  | some r => r.inc == inc
+  | none => false
+
 def ReqMsg.id : ReqMsg → Id
   | .new id _ => id
   | .cancel id => id
@@ -658,12 +684,16 @@ def handle (s : State) : Msg → State
   | .startTask w => startTask s w
   | .getUpdates w => getUpdates s w
   | .finishTask w err => finishTask s w err
-  | .closeNetErr id pub => clearPubWait (abortRequest s id .network).1 pub
-  | .terminate id pub => clearPubWait (terminate s id) pub
+  | .closeNetErr id inc pub =>
+    -- /repo fe9afe8: only the response the subscriber was created for is meant;
+    -- /repo e842a00: the network-error listeners are only told when that response still existed
+    let (s1, r) := if isInc s id inc then abortRequest s id .network else (s, .notFound)
+    if r == .ok then clearPubWait s1 pub else dropNerr (clearPubWait s1 pub) pub id
+  | .terminate id inc pub => clearPubWait (if isInc s id inc then terminate s id else s) pub
 
 /-- the parked manager continues after its reservation was granted -/
 def resumeMgr (s : State) (pk : MgrPark) : State :=
-  let s1 := buildNow { s with park := none } pk.peer pk.id pk.ops
+  let s1 := buildNow { s with park := none } .mgr pk.peer pk.id pk.ops
   match pk.cont with
   | .newReq p id cfg => newReqFinish s1 p id cfg
   | .procUpdate id plan => procUpdateFinish s1 id plan
@@ -781,7 +811,7 @@ def wstep (s : State) (w : Nat) (pick : Nat) : Option State :=
     | .inHook ops cfu => some (runTx s w wk ops (.afterBlock cfu true))
     | .preFinish err => some (sendFinishNow s w err)
     | .blockedTx ops k true =>
-      let s1 := buildNow s wk.peer wk.id ops
+      let s1 := buildNow s (.worker w) wk.peer wk.id ops
       match k with
       | .afterBlock err _ => some (afterBlock s1 w wk err)
       | .afterFinal err => some (sendFinish s1 w err)
@@ -791,11 +821,11 @@ def wstep (s : State) (w : Nat) (pick : Nat) : Option State :=
 def sentSteps (e : Entry) : List PStep :=
   let code := if e.inResp then (e.code.getD stPartial) else 0
   (if e.bdata > 0 then [PStep.emitBs e.id e.bdata] else []) ++
-  (if isTerminal code then [.callTerminate e.id, .emitDone e.id code] else [])
+  (if isTerminal code then [.callTerminate e.id e.inc, .emitDone e.id code] else [])
 
 def errSteps (e : Entry) : List PStep :=
   let code := if e.inResp then (e.code.getD stPartial) else 0
-  [PStep.callClose e.id] ++ (if isTerminal code then [.callTerminate e.id] else []) ++ [.emitNerr e.id]
+  [PStep.callClose e.id e.inc] ++ (if isTerminal code then [.callTerminate e.id e.inc] else []) ++ [.emitNerr e.id]
 
 def scrubBuilder (b : Builder) (ids : List Id) : Builder :=
   { b with entries := b.entries.filter fun e => !ids.contains e.id }
@@ -856,10 +886,10 @@ def pubStep (s : State) (p : Peer) : Option State :=
       | .emitBs id n => some { s1 with events := s1.events ++ List.replicate n (.bs id) }
       | .emitDone id code => some (emit s1 (.done id code))
       | .emitNerr id => some (emit s1 (.nerr id))
-      | .callClose id =>
-        some (sendMsg (setMQ s { q with pubQ := rest, pubWait := true }) (.closeNetErr id p))
-      | .callTerminate id =>
-        some (sendMsg (setMQ s { q with pubQ := rest, pubWait := true }) (.terminate id p))
+      | .callClose id inc =>
+        some (sendMsg (setMQ s { q with pubQ := rest, pubWait := true }) (.closeNetErr id inc p))
+      | .callTerminate id inc =>
+        some (sendMsg (setMQ s { q with pubQ := rest, pubWait := true }) (.terminate id inc p))
 
 -- ------------------------------------------------------------------ the transition system
 inductive Action
